@@ -1,0 +1,30 @@
+//go:build verif
+
+package ctfe
+
+import (
+	"context"
+
+	"github.com/google/certificate-transparency-go/trillian/ctfe/cache"
+	"github.com/google/certificate-transparency-go/trillian/ctfe/storage"
+	"github.com/google/certificate-transparency-go/trillian/util"
+)
+
+// NewInstanceForVerif builds an Instance through the normal set-up path and
+// then lets a verification harness inject the clock and, optionally, an
+// issuance chain storage and cache (the exported path hard-wires the system
+// clock and only opens MySQL / PostgreSQL storage).
+func NewInstanceForVerif(ctx context.Context, opts InstanceOptions, ts util.TimeSource, s storage.IssuanceChainStorage, c cache.IssuanceChainCache) (*Instance, error) {
+	li, err := setUpLogInfo(ctx, opts)
+	if err != nil {
+		return nil, err
+	}
+	if ts != nil {
+		li.TimeSource = ts
+	}
+	if s != nil {
+		li.issuanceChainService = newIndirectIssuanceChainService(s, c)
+	}
+	handlers := li.Handlers(opts.Validated.Config.Prefix)
+	return &Instance{Handlers: handlers, STHGetter: li.sthGetter, li: li}, nil
+}
